@@ -352,7 +352,18 @@ pub fn run<O: Send + 'static>(programs: Vec<Program<O>>, prefix: &[usize], max_p
 				break;
 			}
 			std::thread::sleep(std::time::Duration::from_millis(2));
-			let npoints = sched.st.lock().unwrap().points.len();
+			// (the scheduler state is held while a probe runs: a probe that blocks in a lock of the
+			// store would block this loop too, so only try the lock)
+			let npoints = match sched.st.try_lock() {
+				Ok(st) => st.points.len(),
+				Err(_) => {
+					if last.1.elapsed().as_secs_f64() > 2.0 * WATCHDOG_S {
+						eprintln!("machinery: the scheduler state has been held for {} s: the probe is blocked in a lock of the store that a parked thread holds", 2.0 * WATCHDOG_S);
+						std::process::exit(2);
+					}
+					continue;
+				}
+			};
 			if npoints != last.0 {
 				last = (npoints, std::time::Instant::now());
 			} else if last.1.elapsed().as_secs_f64() > WATCHDOG_S {
